@@ -20,8 +20,8 @@ ASSUMPTIONS = [
     "order is judged only when all three sup-norm errors lie in the asymptotic window [1e-11,5e-2]*scale; a case is a violation only if BOTH successive order estimates fall below nominal-0.35 and a third estimate from a further halving (h/8, if still inside the window) does too",
 ]
 
-FAMILIES = ["exp", "logistic", "osc", "lin2", "cos", "poly", "forced", "atx", "forcedosc"]
-NONAUTO = {"cos", "poly", "forced", "atx", "forcedosc"}
+FAMILIES = ["exp", "logistic", "osc", "lin2", "cos", "poly", "forced", "atx", "forcedosc", "sin0", "tx0"]
+NONAUTO = {"cos", "poly", "forced", "atx", "forcedosc", "sin0", "tx0"}
 
 
 def _iter(name):
@@ -92,6 +92,14 @@ def problem(case):
         ex = lambda t: np.array([c1 * np.cos(t) + c2 * np.sin(t) + A * np.cos(w * t),
                                  -c1 * np.sin(t) + c2 * np.cos(t) - A * w * np.sin(w * t)])
         return f, ex, y0, w
+    if fam == "sin0":
+        # starts at rest: x' = a sin(w (t - t0)) vanishes exactly at the first stage of the first step
+        a, w = p[0], abs(p[1])
+        return (lambda t, x: np.full_like(x, a * np.sin(w * (t - t0)))), (lambda t: x0 + a / w * (1 - np.cos(w * (t - t0)))), x0, w
+    if fam == "tx0":
+        # starts at rest and depends on the state: x' = -2 a (t - t0) x  ->  x0 exp(-a (t - t0)^2)
+        a = abs(p[0])
+        return (lambda t, x: -2 * a * (t - t0) * x), (lambda t: x0 * np.exp(-a * (t - t0) ** 2)), x0, 2 * math.sqrt(a)
     raise ValueError(fam)
 
 
